@@ -259,6 +259,30 @@ func checkPoss(scen string, in PossIn) []*mc.Violation {
 	}); p {
 		out = append(out, mc.V(scen, "selection-returns", in, "no panic", msg))
 	}
+	if len(out) > 0 {
+		return out
+	}
+	// asking is not changing: the same parsed field is then asked for the other architectures and for this one again;
+	// the answer for this architecture, and the field itself, must be what they were
+	before := gen.CanonDep(d)
+	first := d.GetPossibilities(*arch)
+	if p, msg := mc.Guard(func() {
+		for _, other := range []string{"amd64", "i386", "armhf", "all"} {
+			if oa, err := dependency.ParseArch(other); err == nil && other != in.Arch {
+				d.GetPossibilities(*oa)
+				d.GetAllPossibilities()
+				d.GetSubstvars()
+			}
+		}
+	}); p {
+		return append(out, mc.V(scen, "selection-returns", in, "no panic", msg))
+	}
+	if again := d.GetPossibilities(*arch); names(again) != names(first) || !same(again, wantSelP) {
+		out = append(out, mc.V(scen, "first-admitted-alternative", in, strings.Join(wantSel, " "), fmt.Sprintf("after the same field was asked for other architectures: %s (%v)", names(again), again)))
+	}
+	if after := gen.CanonDep(d); after != before {
+		out = append(out, mc.V(scen, "first-admitted-alternative", in, "the parsed field is unchanged by selections: "+before, after))
+	}
 	return out
 }
 
